@@ -799,23 +799,16 @@ Definition not_into_itself (s : fsys) (sv : sview) (co cn : list str) : Prop :=
     /\ is_prefix (pi_path (sr_pi (search_node s (sv_view sv) (abs_path co) SlLstat)) ++ [SLASH])
                  (pi_path (sr_pi (search_node s (sv_view sv) (abs_path cn) SlLstat))) = false.
 
-(* moving a directory to another directory needs write permission on it (listed: C03-RENAME-DIR-WRITE) *)
-Definition moved_dir_writable (s : fsys) (sv : sview) (co cn : list str) : Prop :=
-  forall opar okind oname oc npar nname md,
-    klookup s sv false false (abs_path co) = WNode opar okind oname oc ->
-    klookup s sv false false (abs_path cn) = WNeg npar nname md ->
-    opar = npar \/ kperm (f_heap s) oc 2 (v_user (sv_view sv)) = true.
-
+(* moving a directory to another directory needs write permission on it (EACCES), on both sides *)
 Theorem dstep_rename_dir_new (s : fsys) (sv : sview) (wo : list str) (clo : str) (w : list str) (cl : str) :
   dac_hyps s sv -> path_ok s sv SlLstat (wo ++ [clo]) -> path_ok s sv SlLstat (w ++ [cl]) ->
   source_is_dir s sv (wo ++ [clo]) -> dest_absent s sv (w ++ [cl]) -> rename_one_error s sv (wo ++ [clo]) (w ++ [cl]) ->
   not_into_itself s sv (wo ++ [clo]) (w ++ [cl]) ->
-  moved_dir_writable s sv (wo ++ [clo]) (w ++ [cl]) ->
   let o := abs_path (wo ++ [clo]) in
   let p := abs_path (w ++ [cl]) in
   (fst (rename s (sv_view sv) o p), proj_res Linux (snd (rename s (sv_view sv) o p))) = go_rename s sv o p.
 Proof.
-  intros H Hpo Hp Hnd Hab Hone Hni Hmw o p.
+  intros H Hpo Hp Hnd Hab Hone Hni o p.
   pose proof (dresolve s sv SlLstat (wo ++ [clo]) H Hpo) as Ro. pose proof (dresolve s sv SlLstat (w ++ [cl]) H Hp) as R.
   destruct Hpo as (Hgo & Hko1 & Hnfo). destruct Hp as (Hg & Hk1 & Hnf).
   change (follow_of SlLstat) with false in Ro, R, Hk1, Hko1. change (precise_of SlLstat) with true in Ro, R.
@@ -827,7 +820,7 @@ Proof.
   set (ro := search_node s (sv_view sv) (abs_path (wo ++ [clo])) SlLstat) in *.
   set (rn := search_node s (sv_view sv) (abs_path (w ++ [cl])) SlLstat) in *.
   unfold source_is_dir in Hnd. unfold dest_absent in Hab. unfold rename_one_error in Hone.
-  unfold not_into_itself in Hni. unfold moved_dir_writable in Hmw.
+  unfold not_into_itself in Hni.
   destruct (klookup s sv false false (abs_path (w ++ [cl]))) as [par kind name n|par name md| |e] eqn:HK; cbn [walk_rel] in R;
     [exfalso; exact (Hab _ _ _ _ eq_refl)| |destruct R|].
   - pose proof (Hkg _ _ _ eq_refl) as ->. destruct Hfin as (F1 & F2 & F3). destruct R as (R1 & R2 & R3 & R4).
@@ -837,7 +830,7 @@ Proof.
       destruct Ro as (O1 & O2 & O3 & _ & _ & O4). destruct (O4 eq_refl) as (O5 & O6).
       destruct (at_name_views _ _ _ _ _ _ (O6 eq_refl)) as (W1 & W2 & do & W3 & W4 & W5).
       specialize (Hnd _ _ _ _ eq_refl).
-      destruct (Hni _ _ _ _ _ _ _ eq_refl eq_refl) as (N1 & N2). specialize (Hmw _ _ _ _ _ _ _ eq_refl eq_refl).
+      destruct (Hni _ _ _ _ _ _ _ eq_refl eq_refl) as (N1 & N2).
       assert (Hne : oc <> op).
       { intros ->. apply (ww_acyclic _ (dh_wf _ _ H) op). exists op, clo. split; [constructor|]. apply alookup_in. exact G1. }
       destruct (node_is_dir_get _ _ Hnd) as (cho & mo & Hgoc).
@@ -852,9 +845,14 @@ Proof.
       * rewrite Hpo, Nat.eqb_refl. cbn [negb andb fst snd proj_res].
         rewrite (move_comm _ _ _ _ _ _ G2 F2) by (intros _ ->; congruence). reflexivity.
       * destruct (kperm (f_heap s) par 3 (v_user (sv_view sv))); cbn [negb]; [|reflexivity].
-        destruct Hmw as [->|Hw]; [congruence|]. rewrite Hw.
+        rewrite (check_permission_node _ _ _ OpenWrite _ Hgoc). change (N.land OpenWrite 7) with 2%N.
         replace (Nat.eqb op par) with false by (symmetry; apply Nat.eqb_neq; congruence).
-        cbn [negb andb fst snd proj_res]. rewrite (move_comm _ _ _ _ _ _ G2 F2) by (intros E; congruence). reflexivity.
+        assert (Hk : negb (us_admin (v_user (sv_view sv))) && negb (kperm (f_heap s) oc 2 (v_user (sv_view sv)))
+                     = negb (kperm (f_heap s) oc 2 (v_user (sv_view sv)))).
+        { unfold kperm. rewrite Hgoc. destruct (us_admin (v_user (sv_view sv))); reflexivity. }
+        cbn [negb andb]. rewrite Hk.
+        destruct (kperm (f_heap s) oc 2 (v_user (sv_view sv))); cbn [negb andb fst snd proj_res]; [|reflexivity].
+        rewrite (move_comm _ _ _ _ _ _ G2 F2) by (intros E; congruence). reflexivity.
     + destruct Ro as (O1 & _). pose proof (Hokg _ _ _ eq_refl) as ->. destruct Hofin as (G1 & _).
       rewrite O1, G1. reflexivity.
     + destruct Ro.
@@ -1018,8 +1016,7 @@ Definition dcovered (phl : bool) (vi : nat) (sw : sworld) (c : call) : Prop :=
         /\ dest_absent s sv (w ++ [cl])
         /\ rename_one_error s sv (wo ++ [clo]) (w ++ [cl])
         /\ (source_not_dir s sv (wo ++ [clo])
-            \/ (source_is_dir s sv (wo ++ [clo]) /\ not_into_itself s sv (wo ++ [clo]) (w ++ [cl])
-                /\ moved_dir_writable s sv (wo ++ [clo]) (w ++ [cl])))
+            \/ (source_is_dir s sv (wo ++ [clo]) /\ not_into_itself s sv (wo ++ [clo]) (w ++ [cl])))
   | COpenFile vi' p flag _ => vi' = vi /\ open_covered s sv p flag
   | _ => False
   end.
@@ -1120,9 +1117,9 @@ Proof.
         by (unfold wstep, on_view; rewrite Hv; reflexivity).
       apply (impl_lift w _ _ E); [left; discriminate|exact I].
     + reflexivity.
-    + rewrite <- Hfs, Eo, Ep. destruct Hkind as [Hnd|(Hd & Hni & Hmw)].
+    + rewrite <- Hfs, Eo, Ep. destruct Hkind as [Hnd|(Hd & Hni)].
       * exact (dstep_rename_file_new (sw_fs sw) (sw_sv sw) wo clo ww cl H Hpo Hp Hnd Hab Hone).
-      * exact (dstep_rename_dir_new (sw_fs sw) (sw_sv sw) wo clo ww cl H Hpo Hp Hd Hab Hone Hni Hmw).
+      * exact (dstep_rename_dir_new (sw_fs sw) (sw_sv sw) wo clo ww cl H Hpo Hp Hd Hab Hone Hni).
   - (* Link *)
     destruct Hc as (-> & co & ww & cl & Eo & Ep & Hpo & Hp & Hns & Hph).
     apply (dworld_of_lift phl w vi sw Ha _ (link (w_fs w) (sv_view (sw_sv sw)) o n) (k_link phl (sw_fs sw) (sw_sv sw) o n)).
